@@ -7,7 +7,9 @@
 //!   entries that are not declared otherwise, the first imported BOM taking precedence over later ones,
 //!   recursively;
 //! * dependency management fills in an omitted version and an omitted scope of a dependency with the same
-//!   {groupId, artifactId, type, classifier}, nothing else;
+//!   {groupId, artifactId, type, classifier}, nothing else; a type whose artifact handler has a classifier
+//!   (test-jar → tests, ejb-client → client, java-source → sources, javadoc → javadoc: "Default Artifact
+//!   Handlers Reference") implies that classifier where none is written;
 //! * transitive dependencies: optional ones and those of scope provided/test (system: "similar to
 //!   provided") are omitted, the others get their scope from the scope table;
 //! * mediation: per {groupId, artifactId, classifier, type} the occurrence nearest to the roots wins, the
@@ -29,8 +31,8 @@ pub struct Sem {
 	pub parent_context: bool,
 }
 
-/// (artifact, classifier, type) — the group is constant
-pub type Key = (String, Option<String>, String);
+/// (group, artifact, classifier, type)
+pub type Key = (String, String, Option<String>, String);
 
 #[derive(Clone, Copy, Debug, PartialEq, Eq, PartialOrd, Ord)]
 pub enum Origin {
@@ -59,6 +61,7 @@ pub struct EffDep {
 
 #[derive(Clone, Debug, PartialEq, Eq, Hash, PartialOrd, Ord)]
 pub struct Found {
+	pub group: String,
 	pub artifact: String,
 	pub version: String,
 	pub classifier: Option<String>,
@@ -70,7 +73,7 @@ pub struct Found {
 
 impl Found {
 	pub fn show(&self) -> String {
-		format!("{}:{}:{}{}:{}:{} @ {} ({})", GROUP, self.artifact, self.type_, self.classifier.as_deref().map(|c| format!(":{c}")).unwrap_or_default(), self.version, self.scope.name(), self.repo_url, self.repo_name)
+		format!("{}:{} @ {} ({})", show_coord(&self.group, &self.artifact, &self.type_, self.classifier.as_deref(), &self.version), self.scope.name(), self.repo_url, self.repo_name)
 	}
 }
 
@@ -98,7 +101,14 @@ pub struct Facts {
 	pub version_fills: [u32; 3],
 	pub scope_fills: [u32; 3],
 	pub second_repo_results: u32,
+	pub third_repo_results: u32,
 	pub classifier_or_type_results: u32,
+	/// results whose classifier is the one their type implies
+	pub implied_classifier_results: u32,
+	/// deepest level at which something was listed
+	pub max_depth: u32,
+	/// an occurrence lost against an occurrence of the same artifact on its own path to the roots
+	pub lost_to_own_ancestor: u32,
 }
 
 #[derive(Clone, Debug)]
@@ -123,37 +133,53 @@ pub fn compose(left: Sc, top: Sc, sem: Sem) -> Option<Sc> {
 	}
 }
 
-fn key_of(artifact: &str, classifier: &Option<String>, type_: &Option<String>) -> Key {
-	(artifact.to_owned(), classifier.clone(), type_.clone().unwrap_or_else(|| "jar".to_owned()))
+/// the classifier column of the default artifact handlers
+pub fn implied_classifier(type_: &str) -> Option<&'static str> {
+	match type_ {
+		"test-jar" => Some("tests"),
+		"ejb-client" => Some("client"),
+		"java-source" => Some("sources"),
+		"javadoc" => Some("javadoc"),
+		_ => None,
+	}
 }
 
-pub fn locate<'u>(u: &'u Universe, artifact: &str, version: &str) -> Option<(usize, &'u Pom)> {
-	u.files.iter().filter(|(_, p)| p.artifact == artifact && p.version == version).min_by_key(|(r, _)| *r).map(|(r, p)| (*r, p))
+fn key_of(group: &str, artifact: &str, classifier: &Option<String>, type_: &Option<String>) -> Key {
+	let type_ = type_.clone().unwrap_or_else(|| "jar".to_owned());
+	let classifier = classifier.clone().or_else(|| implied_classifier(&type_).map(str::to_owned));
+	(group.to_owned(), artifact.to_owned(), classifier, type_)
 }
 
-fn need<'u>(u: &'u Universe, artifact: &str, version: &str) -> Result<&'u Pom, Fail> {
-	locate(u, artifact, version).map(|(_, p)| p).ok_or_else(|| Fail::NoSuchPom(format!("{artifact}:{version}")))
+pub fn locate<'u>(u: &'u Universe, group: &str, artifact: &str, version: &str) -> Option<(usize, &'u Pom)> {
+	u.files.iter().filter(|(_, p)| p.group == group && p.artifact == artifact && p.version == version).min_by_key(|(r, _)| *r).map(|(r, p)| (*r, p))
 }
 
-const MAX_DEPTH: usize = 12;
+fn need<'u>(u: &'u Universe, group: &str, artifact: &str, version: &str) -> Result<&'u Pom, Fail> {
+	locate(u, group, artifact, version).map(|(_, p)| p).ok_or_else(|| Fail::NoSuchPom(format!("{group}:{artifact}:{version}")))
+}
+
+/// no chain of an acyclic universe is longer than its number of files
+fn max_depth(u: &Universe) -> usize {
+	u.files.len() + u.roots.len() + 2
+}
 
 type RawDm = Vec<(MgDecl, Origin)>;
 
 fn dm_key(m: &MgDecl) -> Key {
-	if m.import { (m.artifact.clone(), None, "pom".to_owned()) } else { key_of(&m.artifact, &m.classifier, &m.type_) }
+	if m.import { (m.group.clone(), m.artifact.clone(), None, "pom".to_owned()) } else { key_of(&m.group, &m.artifact, &m.classifier, &m.type_) }
 }
 
 /// inheritance: the model after merging the whole parent chain, nothing completed yet
-fn inherited_model(u: &Universe, artifact: &str, version: &str, sem: Sem, depth: usize) -> Result<(Vec<DepDecl>, RawDm), Fail> {
-	if depth > MAX_DEPTH {
+fn inherited_model(u: &Universe, group: &str, artifact: &str, version: &str, sem: Sem, depth: usize) -> Result<(Vec<DepDecl>, RawDm), Fail> {
+	if depth > max_depth(u) {
 		return Err(Fail::TooDeep);
 	}
-	let pom = need(u, artifact, version)?;
+	let pom = need(u, group, artifact, version)?;
 	let own_deps = pom.deps.clone();
 	let mut dm: RawDm = pom.dm.iter().cloned().map(|m| (m, Origin::Own)).collect();
 	let mut deps = own_deps;
-	if let Some((pa, pv)) = &pom.parent {
-		let (pdeps, pdm) = inherited_model(u, pa, pv, sem, depth + 1)?;
+	if let Some((pg, pa, pv)) = &pom.parent {
+		let (pdeps, pdm) = inherited_model(u, pg, pa, pv, sem, depth + 1)?;
 		if sem.inherited_first {
 			let mut all = pdeps;
 			all.extend(deps);
@@ -171,17 +197,17 @@ fn inherited_model(u: &Universe, artifact: &str, version: &str, sem: Sem, depth:
 }
 
 /// the management section of the effective POM: declared (own, then inherited) entries, then what the imports add
-pub fn effective_dm(u: &Universe, artifact: &str, version: &str, sem: Sem, depth: usize) -> Result<Vec<MEntry>, Fail> {
-	if depth > MAX_DEPTH {
+pub fn effective_dm(u: &Universe, group: &str, artifact: &str, version: &str, sem: Sem, depth: usize) -> Result<Vec<MEntry>, Fail> {
+	if depth > max_depth(u) {
 		return Err(Fail::TooDeep);
 	}
-	let (_, raw) = inherited_model(u, artifact, version, sem, depth)?;
+	let (_, raw) = inherited_model(u, group, artifact, version, sem, depth)?;
 	let mut out: Vec<MEntry> = Vec::new();
 	for (m, o) in raw.iter().filter(|(m, _)| !m.import) {
 		out.push(MEntry { key: dm_key(m), version: m.version.clone(), scope: m.scope, origin: *o });
 	}
 	for (m, _) in raw.iter().filter(|(m, _)| m.import) {
-		for e in effective_dm(u, &m.artifact, &m.version, sem, depth + 1)? {
+		for e in effective_dm(u, &m.group, &m.artifact, &m.version, sem, depth + 1)? {
 			if !out.iter().any(|x| x.key == e.key) {
 				out.push(MEntry { origin: Origin::Bom, ..e });
 			}
@@ -191,12 +217,12 @@ pub fn effective_dm(u: &Universe, artifact: &str, version: &str, sem: Sem, depth
 }
 
 fn complete(d: &DepDecl, dm: &[MEntry]) -> Result<EffDep, Fail> {
-	let key = key_of(&d.artifact, &d.classifier, &d.type_);
+	let key = key_of(&d.group, &d.artifact, &d.classifier, &d.type_);
 	let entry = dm.iter().find(|e| e.key == key);
 	let (version, version_from) = match (&d.version, entry) {
 		(Some(v), _) => (v.clone(), None),
 		(None, Some(e)) => (e.version.clone(), Some(e.origin)),
-		(None, None) => return Err(Fail::NoVersion(d.artifact.clone())),
+		(None, None) => return Err(Fail::NoVersion(format!("{}:{}", d.group, d.artifact))),
 	};
 	let (scope, scope_from) = match (d.scope, entry) {
 		(Some(s), _) => (Some(s), None),
@@ -207,30 +233,30 @@ fn complete(d: &DepDecl, dm: &[MEntry]) -> Result<EffDep, Fail> {
 }
 
 /// the `<dependencies>` of the effective POM
-pub fn effective_deps(u: &Universe, artifact: &str, version: &str, sem: Sem) -> Result<Vec<EffDep>, Fail> {
+pub fn effective_deps(u: &Universe, group: &str, artifact: &str, version: &str, sem: Sem) -> Result<Vec<EffDep>, Fail> {
 	if sem.parent_context {
-		return Ok(parent_context_model(u, artifact, version, sem, 0)?.0);
+		return Ok(parent_context_model(u, group, artifact, version, sem, 0)?.0);
 	}
-	let (deps, _) = inherited_model(u, artifact, version, sem, 0)?;
-	let dm = effective_dm(u, artifact, version, sem, 0)?;
+	let (deps, _) = inherited_model(u, group, artifact, version, sem, 0)?;
+	let dm = effective_dm(u, group, artifact, version, sem, 0)?;
 	deps.iter().map(|d| complete(d, &dm)).collect()
 }
 
 /// The deviant reading: every POM of the parent chain completes its own dependencies with what it can see
 /// itself (its own management, its imports, its parents' management); the child inherits the result as is.
-fn parent_context_model(u: &Universe, artifact: &str, version: &str, sem: Sem, depth: usize) -> Result<(Vec<EffDep>, Vec<MEntry>), Fail> {
-	if depth > MAX_DEPTH {
+fn parent_context_model(u: &Universe, group: &str, artifact: &str, version: &str, sem: Sem, depth: usize) -> Result<(Vec<EffDep>, Vec<MEntry>), Fail> {
+	if depth > max_depth(u) {
 		return Err(Fail::TooDeep);
 	}
-	let pom = need(u, artifact, version)?;
+	let pom = need(u, group, artifact, version)?;
 	let parent = match &pom.parent {
-		Some((pa, pv)) => Some(parent_context_model(u, pa, pv, sem, depth + 1)?),
+		Some((pg, pa, pv)) => Some(parent_context_model(u, pg, pa, pv, sem, depth + 1)?),
 		None => None,
 	};
 	let mut dm: Vec<MEntry> = Vec::new();
 	for m in &pom.dm {
 		if m.import {
-			dm.extend(parent_context_model(u, &m.artifact, &m.version, sem, depth + 1)?.1.into_iter().map(|e| MEntry { origin: Origin::Bom, ..e }));
+			dm.extend(parent_context_model(u, &m.group, &m.artifact, &m.version, sem, depth + 1)?.1.into_iter().map(|e| MEntry { origin: Origin::Bom, ..e }));
 		} else {
 			dm.push(MEntry { key: dm_key(m), version: m.version.clone(), scope: m.scope, origin: Origin::Own });
 		}
@@ -262,33 +288,38 @@ struct Node {
 	scope: Sc,
 	/// declaration indices from the root list down to this occurrence
 	path: Vec<usize>,
+	/// the listed occurrence that brought this one (index into the arena of listed occurrences)
+	parent: Option<usize>,
 }
 
 pub fn resolve(u: &Universe, sem: Sem) -> Result<Resolved, Fail> {
 	let mut facts = Facts::default();
-	let mut eff_cache: BTreeMap<(String, String), Vec<EffDep>> = BTreeMap::new();
-	let mut eff = |a: &str, v: &str| -> Result<Vec<EffDep>, Fail> {
-		let k = (a.to_owned(), v.to_owned());
+	let mut eff_cache: BTreeMap<(String, String, String), Vec<EffDep>> = BTreeMap::new();
+	let mut eff = |g: &str, a: &str, v: &str| -> Result<Vec<EffDep>, Fail> {
+		let k = (g.to_owned(), a.to_owned(), v.to_owned());
 		if let Some(e) = eff_cache.get(&k) {
 			return Ok(e.clone());
 		}
-		let e = effective_deps(u, a, v, sem)?;
+		let e = effective_deps(u, g, a, v, sem)?;
 		eff_cache.insert(k, e.clone());
 		Ok(e)
 	};
 
 	let mut level: Vec<Node> = u.roots.iter().enumerate().map(|(i, r)| Node {
-		key: (r.artifact.clone(), r.classifier.clone(), r.type_.clone()),
+		key: (r.group.clone(), r.artifact.clone(), r.classifier.clone(), r.type_.clone()),
 		version: r.version.clone(),
 		scope: r.scope,
 		path: vec![i],
+		parent: None,
 	}).collect();
+	// listed occurrences: (key, the one that brought it)
+	let mut arena: Vec<(Key, Option<usize>)> = Vec::new();
 	// winner per key: (version, depth)
 	let mut won: BTreeMap<Key, (String, usize)> = BTreeMap::new();
 	let mut list = Vec::new();
 	let mut depth = 0usize;
 	while !level.is_empty() {
-		if depth > MAX_DEPTH {
+		if depth > max_depth(u) {
 			return Err(Fail::TooDeep);
 		}
 		// nearest first is the loop over levels; among equals the first declaration, i.e. the smaller path
@@ -303,26 +334,44 @@ pub fn resolve(u: &Universe, sem: Sem) -> Result<Resolved, Fail> {
 				} else {
 					facts.nearer_won += 1;
 				}
+				let mut up = node.parent;
+				while let Some(i) = up {
+					if arena[i].0 == node.key {
+						facts.lost_to_own_ancestor += 1;
+						break;
+					}
+					up = arena[i].1;
+				}
 				continue;
 			}
+			facts.max_depth = facts.max_depth.max(depth as u32);
+			let me = arena.len();
+			arena.push((node.key.clone(), node.parent));
 			won.insert(node.key.clone(), (node.version.clone(), depth));
-			let (repo, _) = locate(u, &node.key.0, &node.version).ok_or_else(|| Fail::NoSuchPom(format!("{}:{}", node.key.0, node.version)))?;
+			let (repo, _) = locate(u, &node.key.0, &node.key.1, &node.version).ok_or_else(|| Fail::NoSuchPom(format!("{}:{}:{}", node.key.0, node.key.1, node.version)))?;
 			if repo > 0 {
 				facts.second_repo_results += 1;
 			}
-			if node.key.1.is_some() || node.key.2 != "jar" {
+			if repo > 1 {
+				facts.third_repo_results += 1;
+			}
+			if node.key.2.is_some() || node.key.3 != "jar" {
 				facts.classifier_or_type_results += 1;
 			}
+			if node.key.2.is_some() && node.key.2.as_deref() == implied_classifier(&node.key.3) {
+				facts.implied_classifier_results += 1;
+			}
 			list.push(Found {
-				artifact: node.key.0.clone(),
+				group: node.key.0.clone(),
+				artifact: node.key.1.clone(),
 				version: node.version.clone(),
-				classifier: node.key.1.clone(),
-				type_: node.key.2.clone(),
+				classifier: node.key.2.clone(),
+				type_: node.key.3.clone(),
 				scope: node.scope,
 				repo_name: u.repos[repo].0.clone(),
 				repo_url: u.repos[repo].1.clone(),
 			});
-			for (i, d) in eff(&node.key.0, &node.version)?.into_iter().enumerate() {
+			for (i, d) in eff(&node.key.0, &node.key.1, &node.version)?.into_iter().enumerate() {
 				if let Some(o) = d.version_from {
 					facts.version_fills[o as usize] += 1;
 				}
@@ -338,7 +387,7 @@ pub fn resolve(u: &Universe, sem: Sem) -> Result<Resolved, Fail> {
 				if let Some(s) = compose(node.scope, ds, sem) {
 					let mut path = node.path.clone();
 					path.push(i);
-					next.push(Node { key: d.key, version: d.version, scope: s, path });
+					next.push(Node { key: d.key, version: d.version, scope: s, path, parent: Some(me) });
 				}
 			}
 		}
@@ -349,13 +398,13 @@ pub fn resolve(u: &Universe, sem: Sem) -> Result<Resolved, Fail> {
 	// everything reachable when nothing is mediated away
 	let mut all: BTreeSet<Key> = BTreeSet::new();
 	let mut seen: BTreeSet<(Key, String)> = BTreeSet::new();
-	let mut stack: Vec<(Key, String)> = u.roots.iter().map(|r| ((r.artifact.clone(), r.classifier.clone(), r.type_.clone()), r.version.clone())).collect();
+	let mut stack: Vec<(Key, String)> = u.roots.iter().map(|r| ((r.group.clone(), r.artifact.clone(), r.classifier.clone(), r.type_.clone()), r.version.clone())).collect();
 	while let Some((k, v)) = stack.pop() {
 		if !seen.insert((k.clone(), v.clone())) {
 			continue;
 		}
 		all.insert(k.clone());
-		for d in eff(&k.0, &v)? {
+		for d in eff(&k.0, &k.1, &v)? {
 			if !d.optional && compose(Sc::Compile, d.scope.unwrap_or(Sc::Compile), sem).is_some() {
 				stack.push((d.key, d.version));
 			}
